@@ -338,6 +338,7 @@ pub async fn run_storage_conc(b: &Value, tr: &mut Tracer) {
     let cache = b["cache"].as_str().unwrap_or("default");
     let m = match cache {
         "none" => StorageManager::new_no_cache(db.clone()),
+        "short" => StorageManager::new(db.clone(), Some(Duration::from_millis(2)), None, Some(Duration::from_millis(2))),
         _ => StorageManager::new(db.clone(), None, None, None),
     };
     let strs = |k: &str| -> Vec<String> { b[k].as_array().unwrap().iter().map(|x| x.as_str().unwrap().to_string()).collect() };
@@ -350,7 +351,8 @@ pub async fn run_storage_conc(b: &Value, tr: &mut Tracer) {
     db.set_log(true);
     {
         let mut c = db.ctl.lock().unwrap();
-        c.gate_enabled = true;
+        // "mt": tasks race freely on a multi-thread runtime (no gate); otherwise every operation is gated
+        c.gate_enabled = !b["mt"].as_bool().unwrap_or(false);
         c.gate_post = b["post"].as_bool().unwrap_or(true);
     }
     let tasks = b["tasks"].as_array().unwrap().clone();
@@ -447,6 +449,18 @@ pub fn main_storage(args: &[String]) {
     let threads: usize = arg_val(args, "--threads").map(|s| s.parse().unwrap()).unwrap_or(8);
     let behaviours = read_ndjson(&input);
     let (n, total) = crate::dirdrv::run_parallel(behaviours, &out, threads, |b| async move {
+        if b["tasks"].is_array() && b["mt"].as_bool().unwrap_or(false) {
+            return tokio::task::spawn_blocking(move || {
+                let rt = tokio::runtime::Builder::new_multi_thread().worker_threads(4).enable_all().build().unwrap();
+                rt.block_on(async move {
+                    let mut tr = Tracer::new();
+                    run_storage_conc(&b, &mut tr).await;
+                    tr
+                })
+            })
+            .await
+            .unwrap();
+        }
         let mut tr = Tracer::new();
         if b["tasks"].is_array() {
             run_storage_conc(&b, &mut tr).await;
